@@ -8,12 +8,16 @@ Property theorems about the transition system of `Model/Rpc.lean` (one object, o
 many calls and callers, all interleavings, stop/removal/connection-loss/serialisation faults at any point).
 
 * `at_most_once`, `own_outcome` — safety, for **every** configuration (pinned tree included).
-* `no_loss`, `calls_complete`, `object_survives` — for the repaired configuration `Cfg.sound` and a client context
-  that is not stopped while it has calls outstanding (`aStop = false`); this is the `_partial` form of
-  "a call never waits for ever".
-* `pinned_*_hangs`, `client_stop_loses_request` — the full-strength statement is **false** of the faithful model of
-  the pinned tree: concrete reachable quiescent states with a call that has no outcome (replayed on the real code
-  by the harness).
+* `no_loss`, `calls_complete`, `object_survives` — for the configuration `Cfg.sound` and a client context that is not
+  stopped while it has calls outstanding (`aStop = false`); this is the `_partial` form of "a call never waits for
+  ever".  Since the repairs 5177c53 (force_unlock on an unlocked object) and dc3d515 (serialisation failures)
+  `Cfg.sound` *is* the configuration of the source: the harness probes the three bits on every run and reports a
+  violation (not a known finding) if one of them is set again.
+* `client_stop_loses_request`, `client_stop_drops_queued_request` — the remaining hypothesis `aStop = false` cannot be
+  dropped: in every configuration a call issued while the caller's own context is being stopped can be lost
+  (known finding, replayed on the real code by the harness).
+* `pinned_*_hangs` — historical: the same statement was false of `Cfg.pinned`, the configuration of the tree before
+  those repairs; kept as kernel-checked witnesses that each `Cfg` bit matters (`sound_completes_those`).
 -/
 namespace QmiModel.Rpc
 
